@@ -11,6 +11,7 @@ var (
 	ErrDBWrongType       = errors.New("db type not allowed")
 	ErrDBWrongPubKeyHash = errors.New("db pubKey hash is not matched with pubKey")
 	ErrDBWrongMapType    = errors.New("db mapType is not valid")
+	ErrDBWrongIdentity   = errors.New("db pubKey or bitLength is not matched with file name")
 
 	ErrAlreadyPlotting = errors.New("db already been plotting")
 	ErrStopPlotting    = errors.New("db stop plotting")
